@@ -10,6 +10,7 @@ import (
 	"encoding/hex"
 	"encoding/json"
 	"fmt"
+	"net"
 	"strconv"
 	"strings"
 	"testing"
@@ -44,6 +45,7 @@ type Scenario struct {
 	DelayMs    int              `json:"delay_ms,omitempty"`
 	TimeoutMs  int              `json:"read_timeout_ms"`
 	ConsumerMs int              `json:"consumer_ms,omitempty"` // the application spends this long on every envelope before it takes the next one off the channel
+	OutPaceMs  int              `json:"out_pace_ms,omitempty"` // sender "out": the application hands Transfer.Out one envelope every so often; with a fudge of 5 s the whole transfer takes longer than the fudge
 	PaceMs     int              `json:"pace_ms,omitempty"`     // scripted sender: pause between envelopes (shorter than the read timeout; the whole transfer may take much longer than it)
 	BadFirst   bool             `json:"bad_first,omitempty"`   // scripted: the sequence does not start with an SOA
 	Rcode      int              `json:"rcode,omitempty"`       // scripted: envelope RcodeAt carries this RCODE
@@ -119,6 +121,19 @@ func Gen(seed uint64, tier string) any {
 	if core.Chance(r, 20) {
 		sc.ConsumerMs = core.Pick(r, 1, sc.TimeoutMs/2, sc.TimeoutMs+100, 3*sc.TimeoutMs)
 	}
+	if sc.Sender == "out" && sc.Alg != "" && sc.ConsumerMs == 0 && sc.PaceMs == 0 && core.Chance(r, 25) {
+		sc.OutPaceMs = core.Pick(r, 1500, 2500, 4000)
+		sc.Fudge, sc.TimeoutMs, sc.DefTimeout = 5, 8000, false
+	}
+	defer func() {
+		if sc.OutPaceMs > 0 {
+			// a fault-free, slow transfer (the sender must have stayed the real one)
+			sc.Ops, sc.CutAt = nil, 0
+			if sc.Sender != "out" {
+				sc.OutPaceMs = 0
+			}
+		}
+	}()
 	defer func() {
 		// a slow consumer shifts the instant at which later envelopes are verified;
 		// keep that apart from the fudge-boundary experiments
@@ -295,7 +310,24 @@ func soa(serial uint32) dns.RR {
 //go:norace
 func rec(tag string, i int) dns.RR {
 	owner := tag + strconv.Itoa(i) + "." + zone
-	switch i % 4 {
+	switch i % 8 {
+	case 4:
+		return &dns.AAAA{Hdr: dns.RR_Header{Name: owner, Rrtype: dns.TypeAAAA, Class: dns.ClassINET, Ttl: 300}, AAAA: []byte{0x20, 1, 0xd, 0xb8, 0, 0, 0, 0, 0, 0, 0, 0, 0, 0, 1, byte(i)}}
+	case 5:
+		// opaque and address-list parameters: values a decoder is tempted to leave pointing into its receive buffer
+		ech := make([]byte, 40+i%7)
+		for j := range ech {
+			ech[j] = byte(0xe0 + (i+j)%16)
+		}
+		return &dns.HTTPS{SVCB: dns.SVCB{Hdr: dns.RR_Header{Name: owner, Rrtype: dns.TypeHTTPS, Class: dns.ClassINET, Ttl: 300}, Priority: 1, Target: ".",
+			Value: []dns.SVCBKeyValue{&dns.SVCBAlpn{Alpn: []string{"h2", "h3"}}, &dns.SVCBIPv4Hint{Hint: []net.IP{{192, 0, 2, byte(i)}, {198, 51, 100, 7}}},
+				&dns.SVCBECHConfig{ECH: ech}, &dns.SVCBIPv6Hint{Hint: []net.IP{{0x20, 1, 0xd, 0xb8, 0, 0, 0, 0, 0, 0, 0, 0, 0, 0, 2, byte(i)}}}}}}
+	case 6:
+		return &dns.SVCB{Hdr: dns.RR_Header{Name: owner, Rrtype: dns.TypeSVCB, Class: dns.ClassINET, Ttl: 300}, Priority: 2, Target: "svc." + zone,
+			Value: []dns.SVCBKeyValue{&dns.SVCBPort{Port: 8000 + uint16(i)}, &dns.SVCBLocal{KeyCode: 65333, Data: []byte("local-data-" + strconv.Itoa(i))}}}
+	case 7:
+		return &dns.APL{Hdr: dns.RR_Header{Name: owner, Rrtype: dns.TypeAPL, Class: dns.ClassINET, Ttl: 300},
+			Prefixes: []dns.APLPrefix{{Network: net.IPNet{IP: net.IP{192, 0, byte(i), 0}, Mask: net.CIDRMask(24, 32)}}, {Negation: true, Network: net.IPNet{IP: net.IP{0x20, 1, 0xd, 0xb8, 0, 0, 0, 0, 0, 0, 0, 0, 0, 0, 0, 0}, Mask: net.CIDRMask(32, 128)}}}}
 	case 0:
 		return &dns.A{Hdr: dns.RR_Header{Name: owner, Rrtype: dns.TypeA, Class: dns.ClassINET, Ttl: 300}, A: []byte{192, 0, 2, byte(i)}}
 	case 1:
@@ -379,6 +411,7 @@ type item struct {
 	recs []string
 	err  string
 	t    time.Time
+	rrs  []dns.RR // the delivered objects themselves (they stay on the consumer's goroutine)
 }
 
 type run struct {
@@ -446,7 +479,7 @@ func (c *clientTask) RunEvent(time.Time) {
 		return
 	}
 	for e := range env {
-		it := item{err: common.ErrStr(e.Error), t: time.Now()}
+		it := item{err: common.ErrStr(e.Error), t: time.Now(), rrs: e.RR}
 		for _, rr := range e.RR {
 			it.recs = append(it.recs, rr.String())
 		}
@@ -467,7 +500,16 @@ func (c *clientTask) RunEvent(time.Time) {
 		}
 	}
 	closedNow := x.cliConn.IsClosed()
+	// what was delivered stays what it was: a record handed out earlier must not change when later envelopes are read
 	k.Lock()
+	for i := range x.items {
+		for j, rr := range x.items[i].rrs {
+			x.res.Stats["oracle.T1_delivered_records_stable"]++
+			if now := rr.String(); now != x.items[i].recs[j] {
+				x.res.Fail("T1", "delivered-record-changed", "record %d of envelope %d read %q when it was delivered and reads %q now that the transfer is over: it shares memory with something the receiver reused", j, i, x.items[i].recs[j], now)
+			}
+		}
+	}
 	x.chClosed, x.closedT, x.connClosedAtChClose = true, time.Now(), closedNow
 	k.Unlock()
 }
@@ -582,16 +624,44 @@ func readFull(c *simnet.StreamConn, p []byte) bool {
 func (x *run) ServeDNS(w dns.ResponseWriter, r *dns.Msg) {
 	envs := envelopes(x.sc)
 	ch := make(chan *dns.Envelope, len(envs))
-	for _, rrs := range envs {
-		ch <- &dns.Envelope{RR: rrs}
+	if x.sc.OutPaceMs > 0 {
+		// the application produces the zone slowly
+		ch = make(chan *dns.Envelope)
+		x.k.Go("feeder", &feeder{x, ch, envs})
+		x.k.Bump("fault.sender_paces_envelopes")
+	} else {
+		for _, rrs := range envs {
+			ch <- &dns.Envelope{RR: rrs}
+		}
+		close(ch)
 	}
-	close(ch)
 	tr := new(dns.Transfer)
 	err := tr.Out(w, r, ch)
 	x.k.Lock()
 	x.outErr = common.ErrStr(err)
 	x.k.Unlock()
 	// leave the connection to the client / relay to close
+}
+
+// feeder hands the envelopes to Transfer.Out one at a time, with a pause before each but the first.
+type feeder struct {
+	x    *run
+	ch   chan *dns.Envelope
+	envs [][]dns.RR
+}
+
+//go:norace
+func (f *feeder) RunEvent(time.Time) {
+	for i, rrs := range f.envs {
+		if i > 0 {
+			f.x.k.Sleep("feeder.pace", time.Duration(f.x.sc.OutPaceMs)*time.Millisecond)
+		}
+		if f.x.k.Aborting() {
+			break
+		}
+		f.ch <- &dns.Envelope{RR: rrs}
+	}
+	close(f.ch)
 }
 
 type serveTask struct{ x *run }
@@ -667,11 +737,11 @@ func runIn(sc *Scenario, res *core.Result, verbose bool) {
 		if sc.Alg != "" && sc.ServerKey {
 			x.srv.TsigSecret = secrets()
 		}
-		relayS = n.Dial(x.l, false)
+		relayS = n.Dial(x.l, true)
 		k.Go("serve", serveTask{x})
 	} else {
 		var snd *simnet.StreamConn
-		relayS, snd = n.Pair(false)
+		relayS, snd = n.Pair(true)
 		x.sndConn = snd
 		k.Go("sender", &scriptedTask{x})
 	}
@@ -760,10 +830,19 @@ func (x *run) judge(start0 time.Time) {
 	if sc.Sender == "out" && sc.Alg != "" && sc.ServerKey && sc.ClientKey && len(x.relay.In["c2s"]) > 0 {
 		if qt, _, ok := oracle.FindTSIG(x.relay.In["c2s"][0]); ok {
 			prior := qt.MAC
+			off := 0
 			for i, f := range original {
-				v := oracle.VerifyTSIG(f, secrets(), prior, i > 0, uint64(start0.Unix()))
+				// judged at the instant the envelope reached the middlebox, a link delay after it was written
+				at := start0
+				off += 2 + len(f)
+				if t, ok := x.relay.ToServer.ArrivedAt(off); ok {
+					at = t
+				} else if it := x.relay.InT["s2c"]; i < len(it) {
+					at = it[i]
+				}
+				v := oracle.VerifyTSIG(f, secrets(), prior, i > 0, uint64(at.Unix()))
 				res.Bump("oracle.T4_out_chain")
-				if v.Judgable && !v.Valid && v.Reason != "outside fudge" {
+				if v.Judgable && !v.Valid {
 					res.Fail("T4", "out-chain-invalid", "envelope %d written by Transfer.Out does not verify under RFC 8945 (%s)", i, v.Reason)
 					return
 				}
